@@ -29,11 +29,11 @@ Quirks kept as they are:
 * the chunk functions size-match to `data_config.preprocessing.max_height/max_width` when set and
   to `max_hw` otherwise, per component; so do the torch datasets since `fix:` 3fdd300
   (`BaseDataset.__init__`).  Before it they only ever used `max_hw` (finding F-C18a): that tree is
-  kept as `sampleOfAsWas` (`honour := false`), the regression record;
-* `SingleInstanceDataset` pads `instances` to `get_max_instances(labels)` rows whereas
-  `single_instance_data_chunks` calls `process_lf(max_instances=1)` (finding F-C18b);
-  `singleOne := true` models the tree with the repair (`self.max_instances = 1`), `false` the tree
-  as it is; the harness probes the real class and passes the flag;
+  kept as `sampleOfAsWas` (`Tree.original`), the regression record;
+* `SingleInstanceDataset` builds one-instance samples (`self.max_instances = 1`, `fix:` b2232cf),
+  like `single_instance_data_chunks` (`process_lf(max_instances=1)`).  Before it the dataset padded
+  `instances` to `get_max_instances(labels)` rows (finding F-C18b): kept as `sampleOfBeforeB2232cf`,
+  the regression record;
 * `centroid_data_chunks` takes centroids of the un-resized keypoints and resizes the centroids;
   its `instances` entry stays un-resized.  `CentroidDataset` resizes the keypoints first;
 * `centered_instance_data_chunks` crops first and resizes the crop and the keypoints — not the
@@ -135,8 +135,6 @@ structure Cfg (R : Type) where
   maxInstances : Nat
   /-- does `generate_centroids` write through its argument (F-C11 present)? -/
   aliasing : Bool
-  /-- does `SingleInstanceDataset` call `process_lf` with `max_instances = 1` (F-C18b repaired)? -/
-  singleOne : Bool := false
 
 /-- a labelled frame: raw image dimensions and `lf.instances` (user instances, possibly empty ones) -/
 structure Frame (R : Type) where
@@ -314,33 +312,46 @@ def effScale (N : Num R) (fr : Frame R) (mh mw : Nat) : R := (sizematchPlan N fr
 def chunkMaxH (cfg : Cfg R) : Nat := cfg.cfgMaxH.getD cfg.maxH
 def chunkMaxW (cfg : Cfg R) : Nat := cfg.cfgMaxW.getD cfg.maxW
 
-/-- the size the torch datasets size-match to: `honour = true` is `BaseDataset.__init__` since
-3fdd300 (config values first, per component), `honour = false` the tree before it -/
-def dsMaxH (honour : Bool) (cfg : Cfg R) : Nat := if honour then chunkMaxH cfg else cfg.maxH
-def dsMaxW (honour : Bool) (cfg : Cfg R) : Nat := if honour then chunkMaxW cfg else cfg.maxW
+/-- which repairs of the torch datasets a modelled tree contains -/
+structure Tree where
+  /-- 3fdd300: config `max_height/max_width` first, per component (else only `max_hw`: F-C18a) -/
+  honourCfgMax : Bool
+  /-- b2232cf: `SingleInstanceDataset.max_instances = 1` (else NaN padding to the labels' maximum: F-C18b) -/
+  singleNoPad : Bool
+
+/-- /repo as it is -/
+def Tree.current : Tree := ⟨true, true⟩
+/-- the pinned snapshot (bc2d651) -/
+def Tree.original : Tree := ⟨false, false⟩
+/-- 3fdd300 without b2232cf -/
+def Tree.beforeB2232cf : Tree := ⟨true, false⟩
+
+/-- the size the torch datasets size-match to -/
+def dsMaxH (t : Tree) (cfg : Cfg R) : Nat := if t.honourCfgMax then chunkMaxH cfg else cfg.maxH
+def dsMaxW (t : Tree) (cfg : Cfg R) : Nat := if t.honourCfgMax then chunkMaxW cfg else cfg.maxW
 
 /-- `max_instances` the single-instance / bottom-up torch dataset hands to `process_lf` -/
-def dsMaxInst (cfg : Cfg R) : Nat :=
-  if cfg.mt = .single ∧ cfg.singleOne = true then 1 else cfg.maxInstances
+def dsMaxInst (t : Tree) (cfg : Cfg R) : Nat :=
+  if cfg.mt = .single ∧ t.singleNoPad = true then 1 else cfg.maxInstances
 
 def q8If (b : Bool) (i : Img R) : Img R := if b then .quant8 i else i
 
 /-! ## framework (i): torch datasets, in-memory cache (`np = false`) and `.npz` chunks (`np = true`) -/
 
 /-- `BaseDataset._fill_cache` + `SingleInstanceDataset|BottomUpDataset.__getitem__` -/
-def torchPlain (N : Num R) (honour np : Bool) (cfg : Cfg R) (fr : Frame R) : Sample R :=
-  let pl := processLf (dsMaxInst cfg) fr.insts
-  let e := effScale N fr (dsMaxH honour cfg) (dsMaxW honour cfg)
-  { img := q8If np (.padStride cfg.maxStride (applyResizer cfg.scale (base cfg.isRgb (dsMaxH honour cfg) (dsMaxW honour cfg)))),
+def torchPlain (N : Num R) (t : Tree) (np : Bool) (cfg : Cfg R) (fr : Frame R) : Sample R :=
+  let pl := processLf (dsMaxInst t cfg) fr.insts
+  let e := effScale N fr (dsMaxH t cfg) (dsMaxW t cfg)
+  { img := q8If np (.padStride cfg.maxStride (applyResizer cfg.scale (base cfg.isRgb (dsMaxH t cfg) (dsMaxW t cfg)))),
     instances := applyResizerPts cfg.scale (pl.1.map (scaleInst e)),
     centroids := [], bbox := [], numInstances := pl.2, rank := 4 }
 
 /-- `CentroidDataset._fill_cache` + `__getitem__` -/
-def torchCentroid (N : Num R) (honour np : Bool) (cfg : Cfg R) (fr : Frame R) : Sample R :=
+def torchCentroid (N : Num R) (t : Tree) (np : Bool) (cfg : Cfg R) (fr : Frame R) : Sample R :=
   let pl := processLf cfg.maxInstances fr.insts
-  let e := effScale N fr (dsMaxH honour cfg) (dsMaxW honour cfg)
+  let e := effScale N fr (dsMaxH t cfg) (dsMaxW t cfg)
   let insts := applyResizerPts cfg.scale (pl.1.map (scaleInst e))
-  { img := q8If np (.padStride cfg.maxStride (applyResizer cfg.scale (base cfg.isRgb (dsMaxH honour cfg) (dsMaxW honour cfg)))),
+  { img := q8If np (.padStride cfg.maxStride (applyResizer cfg.scale (base cfg.isRgb (dsMaxH t cfg) (dsMaxW t cfg)))),
     instances := insts.map (writeBack cfg.aliasing cfg.anchor),
     centroids := insts.map (centroidOf cfg.anchor),
     bbox := [], numInstances := pl.2, rank := 3 }
@@ -352,11 +363,11 @@ def recrop (N : Num R) (m : Nat) (c1 : Crop R) (h w : Nat) (num rank : Nat) : Sa
     numInstances := num, rank := rank }
 
 /-- `CenteredInstanceDataset._fill_cache` + `__getitem__` for the `k`-th non-empty instance -/
-def torchCentered (N : Num R) (honour np : Bool) (cfg : Cfg R) (fr : Frame R) (k : Nat) : Sample R :=
-  let e := effScale N fr (dsMaxH honour cfg) (dsMaxW honour cfg)
+def torchCentered (N : Num R) (t : Tree) (np : Bool) (cfg : Cfg R) (fr : Frame R) (k : Nat) : Sample R :=
+  let e := effScale N fr (dsMaxH t cfg) (dsMaxW t cfg)
   let inst0 := ((nonEmpty fr.insts)[k]?).getD []
   let inst1 := ((applyResizerPts cfg.scale [scaleInst e inst0])[0]?).getD []
-  let img := applyResizer cfg.scale (base cfg.isRgb (dsMaxH honour cfg) (dsMaxW honour cfg))
+  let img := applyResizer cfg.scale (base cfg.isRgb (dsMaxH t cfg) (dsMaxW t cfg))
   let c1 := generateCrops N img (writeBack cfg.aliasing cfg.anchor inst1) (centroidOf cfg.anchor inst1)
     (cropExtra cfg.cropH) (cropExtra cfg.cropW)
   recrop N cfg.maxStride { c1 with img := q8If np c1.img } cfg.cropH cfg.cropW fr.insts.length 3
@@ -401,26 +412,30 @@ def streamCentered (N : Num R) (cfg : Cfg R) (fr : Frame R) (k : Nat) : Sample R
     pl.2 4
 
 /-- the sample framework `fw` returns for frame `fr` (instance `k` of it for the centred-instance
-model); `honour` selects the torch datasets' treatment of the config's `max_height/max_width` -/
-def sampleOfH (honour : Bool) (N : Num R) (fw : FW) (cfg : Cfg R) (fr : Frame R) (k : Nat) : Sample R :=
+model) on tree `t` -/
+def sampleOfH (t : Tree) (N : Num R) (fw : FW) (cfg : Cfg R) (fr : Frame R) (k : Nat) : Sample R :=
   match fw, cfg.mt with
-  | .mem, .single | .mem, .bottomup => torchPlain N honour false cfg fr
-  | .np, .single | .np, .bottomup => torchPlain N honour true cfg fr
+  | .mem, .single | .mem, .bottomup => torchPlain N t false cfg fr
+  | .np, .single | .np, .bottomup => torchPlain N t true cfg fr
   | .stream, .single | .stream, .bottomup => streamPlain N cfg fr
-  | .mem, .centroid => torchCentroid N honour false cfg fr
-  | .np, .centroid => torchCentroid N honour true cfg fr
+  | .mem, .centroid => torchCentroid N t false cfg fr
+  | .np, .centroid => torchCentroid N t true cfg fr
   | .stream, .centroid => streamCentroid N cfg fr
-  | .mem, .centered => torchCentered N honour false cfg fr k
-  | .np, .centered => torchCentered N honour true cfg fr k
+  | .mem, .centered => torchCentered N t false cfg fr k
+  | .np, .centered => torchCentered N t true cfg fr k
   | .stream, .centered => streamCentered N cfg fr k
 
-/-- the tree as it is (3fdd300 and later) -/
+/-- the tree as it is (b2232cf) -/
 def sampleOf (N : Num R) (fw : FW) (cfg : Cfg R) (fr : Frame R) (k : Nat) : Sample R :=
-  sampleOfH true N fw cfg fr k
+  sampleOfH Tree.current N fw cfg fr k
 
 /-- the tree before 3fdd300: torch datasets ignore the config's `max_height/max_width` (F-C18a) -/
 def sampleOfAsWas (N : Num R) (fw : FW) (cfg : Cfg R) (fr : Frame R) (k : Nat) : Sample R :=
-  sampleOfH false N fw cfg fr k
+  sampleOfH Tree.original N fw cfg fr k
+
+/-- the tree between 3fdd300 and b2232cf: `SingleInstanceDataset` pads to the labels' maximum (F-C18b) -/
+def sampleOfBeforeB2232cf (N : Num R) (fw : FW) (cfg : Cfg R) (fr : Frame R) (k : Nat) : Sample R :=
+  sampleOfH Tree.beforeB2232cf N fw cfg fr k
 
 /-- how many samples a framework produces for one labelled frame; `none` = it raises.
 Torch datasets index the frames (`_get_lf_idx_list`) / instances (`_get_instance_idx_list`) that
